@@ -332,7 +332,8 @@ InvokeReturnDo(s) ==
 NewInv(c, pl) == [c |-> c, pl |-> pl, id |-> 0, t0 |-> 0, m |-> "start", r |-> "off", f |-> "off", i |-> "off",
                   out |-> "", relRes |-> "", body |-> NoBody, derr |-> NoBody,
                   got |-> FALSE,      \* a body (possibly empty) has been written to this caller's reply stream
-                  once |-> "free"]    \* resetOnce of this Server.Invoke call: "free" | "busy" (a reset is running) | "done"
+                  once |-> "free",    \* resetOnce of this Server.Invoke call: "free" | "busy" (a reset is running) | "done"
+                  lg |-> FALSE]       \* trace validation: the event payload is large (its delivery to the runtime takes time)
 
 WithInv(s, k, rec) == [s EXCEPT !.iv = [x \in DOMAIN s.iv \cup {k} |-> IF x = k THEN rec ELSE s.iv[x]]]
 
